@@ -12,6 +12,7 @@ PRELUDE = """package main
 import frt
 import slice
 import strings
+import dict
 
 type IR1 = {A: int; B: string}
 type IR2 = {Name: string; Vals: []int}
@@ -142,7 +143,7 @@ class Fn:
              "fst": "any", "snd": "any", "map": "sl", "append": "sl", "push": "sl", "applyf": "any", "rec": "named", "ctor": "named",
              "ipair": "tup", "iid": "any", "iswap": "tup", "iconst": "int", "concat": "str", "sprintf": "str",
              "gbox": "named", "gsome": "named", "iwrap": "named", "iunbox": "int", "ioptlen": "int",
-             "ifx": "any", "pipe": "any", "pappmap": "sl", "applyl": "any", "fold": "int", "filter": "sl", "selfcall": "any", "callq": "any"}
+             "ifx": "any", "pipe": "any", "pappmap": "sl", "applyl": "any", "fold": "int", "filter": "sl", "selfcall": "any", "callq": "any", "dkeys": "tup", "dvalues": "tup", "dhas": "bool", "ditem": "any"}
 
     def generic_value(self, d, arg_want):
         """an expression of type IBox<t> / IOpt<t> (kind chosen by the caller through arg_want = ("IBox"|"IOpt", base or None))"""
@@ -308,6 +309,23 @@ class Fn:
             b, tb, xb = E()
             self.eq(ta, INT)
             return "iconst %s %s" % (self.atom(a), self.atom(b)), INT, call("iconst", xa, xb)
+        if o in ("dkeys", "dvalues", "dhas", "ditem"):
+            # a dictionary whose VALUE type is undetermined: an EXTERNAL generic type (dict.Dict<K, V>) whose arguments are inferred.
+            # (The key type is always determined: type parameters are emitted with the constraint any, and Go wants comparable keys.)
+            x = self.var()
+            if x is None:
+                return self.expr(0, want)
+            v = self.fresh()
+            kt, klit, kx = rng.choice([(INT, "1", LIT["int"]), (STR, '"k"', LIT["str"])])
+            self.eq(self.env[x], ["named", "dict.Dict", [kt, v]])
+            has = ("dict.ContainsKey %s %s" % (x, klit), call("dict.ContainsKey", V(x), kx))
+            if o == "dhas":
+                return has[0], BOOL, has[1]
+            if o == "ditem":
+                return "dict.Item %s %s" % (x, klit), v, call("dict.Item", V(x), kx)
+            if o == "dkeys":
+                return "(dict.Keys %s, %s)" % (x, has[0]), tup(sl(kt), BOOL), ["tuple", [call("dict.Keys", V(x)), has[1]]]
+            return "(dict.Values %s, %s)" % (x, has[0]), tup(sl(v), BOOL), ["tuple", [call("dict.Values", V(x)), has[1]]]
         if o == "callq":
             # a call of an earlier generated function: a fresh instance of its inferred, generalised type
             cs = [c for c in self.callables if 1 <= len(c.params) <= 3]
